@@ -532,13 +532,190 @@ func pairFieldReturned(h *ssa.Function) string {
 }
 
 func dedupKeysB(w *World, fn *ssa.Function, depth int, seen map[*ssa.Function]bool, fbind map[*ssa.Parameter]*ssa.Function) map[string]bool {
+	return dedupKeysE(w, fn, depth, seen, fbind, nil)
+}
+
+// pairProvenance: what is known, inside a helper, about the values its call site handed in: the function bound to a function-typed
+// parameter (a selector), and the MatchPair members the elements of a slice parameter are copies of (a list of values that were
+// selected from pairs before the helper sees them, e.g. the packet names collected from the pairs of every match field).
+type pairProvenance struct {
+	fbind map[*ssa.Parameter]*ssa.Function
+	ebind map[*ssa.Parameter]map[string]bool
+}
+
+// valueFields: the MatchPair members v is an unchanged copy of: a member read, an element of a list of such copies, or what a
+// selector function (static, a closure, or bound to a parameter) returns for such a value - one of the members of the pair it is
+// given, or its argument as it is. Anything computed otherwise yields nothing.
+func (pp pairProvenance) valueFields(v ssa.Value, depth int, seen map[ssa.Value]bool) map[string]bool {
+	out := map[string]bool{}
+	v = stripIdentity(v)
+	if v == nil || depth > 8 || seen[v] {
+		return out
+	}
+	seen[v] = true
+	defer delete(seen, v)
+	if f := pairFieldOf(v); f != "" {
+		out[f] = true
+		return out
+	}
+	switch x := v.(type) {
+	case *ssa.Phi:
+		for _, e := range x.Edges {
+			for f := range pp.valueFields(e, depth+1, seen) {
+				out[f] = true
+			}
+		}
+	case *ssa.UnOp:
+		if ia, ok := x.X.(*ssa.IndexAddr); ok && x.Op == token.MUL {
+			return pp.elemFields(ia.X, depth+1, seen)
+		}
+	case *ssa.Call:
+		if x.Call.IsInvoke() {
+			return out
+		}
+		var sel *ssa.Function
+		if p, isParam := stripIdentity(x.Call.Value).(*ssa.Parameter); isParam {
+			sel = pp.fbind[p]
+		} else {
+			sel = calleeOf(x)
+		}
+		if sel == nil || sel.Blocks == nil || len(sel.Params) != len(x.Call.Args) {
+			return out
+		}
+		for _, b := range sel.Blocks {
+			ret, ok := b.Instrs[len(b.Instrs)-1].(*ssa.Return)
+			if !ok {
+				continue
+			}
+			if len(ret.Results) != 1 {
+				return map[string]bool{}
+			}
+			res := stripIdentity(ret.Results[0])
+			if f := pairFieldOf(res); f != "" {
+				// a member of the selector's own argument
+				if root := paramBehind(valueRoot(res)); root != nil && root.Parent() == sel {
+					out[f] = true
+					continue
+				}
+				return map[string]bool{}
+			}
+			idx := -1
+			for i, q := range sel.Params {
+				if ssa.Value(q) == res {
+					idx = i
+				}
+			}
+			if idx < 0 {
+				return map[string]bool{} // computed: not a selection
+			}
+			got := pp.valueFields(x.Call.Args[idx], depth+1, seen)
+			if len(got) == 0 {
+				return map[string]bool{}
+			}
+			for f := range got {
+				out[f] = true
+			}
+		}
+	}
+	return out
+}
+
+// paramBehind: v is a parameter, or the local cell a parameter is copied into at entry (go/ssa keeps a struct parameter whose
+// members are selected in such a cell) and that nothing else is stored into.
+func paramBehind(v ssa.Value) *ssa.Parameter {
+	switch x := v.(type) {
+	case *ssa.Parameter:
+		return x
+	case *ssa.Alloc:
+		if x.Referrers() == nil {
+			return nil
+		}
+		var p *ssa.Parameter
+		for _, ref := range *x.Referrers() {
+			if st, ok := ref.(*ssa.Store); ok && st.Addr == ssa.Value(x) {
+				q, isP := st.Val.(*ssa.Parameter)
+				if !isP || p != nil {
+					return nil
+				}
+				p = q
+			}
+		}
+		return p
+	}
+	return nil
+}
+
+// elemFields: the MatchPair members the elements of the slice s are copies of: elements appended one by one (or in bulk from
+// another such list) to a local list, a reslice, a list kept in a variable, or a slice parameter whose call site was looked at.
+func (pp pairProvenance) elemFields(s ssa.Value, depth int, seen map[ssa.Value]bool) map[string]bool {
+	out := map[string]bool{}
+	s = stripIdentity(s)
+	if s == nil || depth > 8 || seen[s] {
+		return out
+	}
+	seen[s] = true
+	defer delete(seen, s)
+	add := func(m map[string]bool) {
+		for f := range m {
+			out[f] = true
+		}
+	}
+	switch x := s.(type) {
+	case *ssa.Parameter:
+		add(pp.ebind[x])
+	case *ssa.Phi:
+		for _, e := range x.Edges {
+			add(pp.elemFields(e, depth+1, seen))
+		}
+	case *ssa.Slice:
+		add(pp.elemFields(x.X, depth+1, seen))
+	case *ssa.UnOp:
+		if al, ok := x.X.(*ssa.Alloc); ok && x.Op == token.MUL && al.Referrers() != nil {
+			for _, ref := range *al.Referrers() {
+				if st, ok := ref.(*ssa.Store); ok && st.Addr == ssa.Value(al) {
+					add(pp.elemFields(st.Val, depth+1, seen))
+				}
+			}
+		}
+	case *ssa.Call:
+		bi, ok := x.Call.Value.(*ssa.Builtin)
+		if !ok || bi.Name() != "append" || len(x.Call.Args) != 2 {
+			return out
+		}
+		add(pp.elemFields(x.Call.Args[0], depth+1, seen))
+		if sl, ok := x.Call.Args[1].(*ssa.Slice); ok {
+			if al, ok := sl.X.(*ssa.Alloc); ok && al.Referrers() != nil {
+				// append(list, a, b): the values put into the argument array
+				if _, isArr := al.Type().(*types.Pointer).Elem().Underlying().(*types.Array); isArr {
+					for _, ref := range *al.Referrers() {
+						ia, ok := ref.(*ssa.IndexAddr)
+						if !ok || ia.Referrers() == nil {
+							continue
+						}
+						for _, r2 := range *ia.Referrers() {
+							if st, ok := r2.(*ssa.Store); ok && st.Addr == ssa.Value(ia) {
+								add(pp.valueFields(st.Val, depth+1, seen))
+							}
+						}
+					}
+					return out
+				}
+			}
+		}
+		add(pp.elemFields(x.Call.Args[1], depth+1, seen))
+	}
+	return out
+}
+
+func dedupKeysE(w *World, fn *ssa.Function, depth int, seen map[*ssa.Function]bool, fbind map[*ssa.Parameter]*ssa.Function, ebind map[*ssa.Parameter]map[string]bool) map[string]bool {
 	out := map[string]bool{}
 	if depth > 3 || fn.Blocks == nil {
 		return out
 	}
-	if seen[fn] && len(fbind) == 0 {
+	if seen[fn] && len(fbind) == 0 && len(ebind) == 0 {
 		return out
 	}
+	pp := pairProvenance{fbind, ebind}
 	seen[fn] = true
 	forEachInstr(fn, func(b *ssa.BasicBlock, ins ssa.Instruction) {
 		switch x := ins.(type) {
@@ -563,7 +740,15 @@ func dedupKeysB(w *World, fn *ssa.Function, depth int, seen map[*ssa.Function]bo
 					}
 				}
 			}
-			if f := kf; f != "" {
+			kfs := map[string]bool{}
+			if kf != "" {
+				kfs[kf] = true
+			} else {
+				// the set is kept over values that were selected from the pairs earlier (a list of packet names collected from the
+				// pairs, handed to a helper that drops repeated elements): the key is a copy of those members
+				kfs = pp.valueFields(x.Key, 0, map[ssa.Value]bool{})
+			}
+			for f := range kfs {
 				// it is a seen-set only if the same map is also looked up
 				mm := valueRoot(x.Map)
 				for _, ref := range *mm.(*ssa.MakeMap).Referrers() {
@@ -600,6 +785,24 @@ func dedupKeysB(w *World, fn *ssa.Function, depth int, seen map[*ssa.Function]bo
 					rel = true // e.g. a helper returning the unique packet names of a match field
 				}
 			}
+			// a helper that is handed a list of values selected from pairs (not the pairs themselves): the members its elements are
+			// copies of travel with the parameter. Generic helpers are instantiated per element type, so the parameter's type says
+			// nothing about pairs there; what the call site passes does.
+			eb := map[*ssa.Parameter]map[string]bool{}
+			if r := roleOf(g); r != "enc" && r != "dec" && r != "test" {
+				for i, a := range x.Call.Args {
+					if i >= len(g.Params) {
+						break
+					}
+					if _, isSlice := a.Type().Underlying().(*types.Slice); !isSlice {
+						continue
+					}
+					if ef := pp.elemFields(a, 0, map[ssa.Value]bool{}); len(ef) > 0 {
+						eb[g.Params[i]] = ef
+						rel = true
+					}
+				}
+			}
 			if rel {
 				// function values handed to the helper (a selector deciding what "the same pair" means)
 				fb := map[*ssa.Parameter]*ssa.Function{}
@@ -623,7 +826,7 @@ func dedupKeysB(w *World, fn *ssa.Function, depth int, seen map[*ssa.Function]bo
 						}
 					}
 				}
-				for k := range dedupKeysB(w, g, depth+1, seen, fb) {
+				for k := range dedupKeysE(w, g, depth+1, seen, fb, eb) {
 					out[k] = true
 				}
 			}
